@@ -165,7 +165,7 @@ async fn one_history(mon: &mut Monitor, rng: &mut rand_chacha::ChaCha20Rng, dir:
     let mut run = hist::Run::start(dir, rng).await?;
     let len = 40 + rnd::usize_below(rng, 121);
     // bootstrap like an operator would: tick, register, next epoch
-    let boot = vec![hist::Ev::Tick, hist::Ev::Register { who: (0..run.n_signers()).collect() }, hist::Ev::EpochUp(1), hist::Ev::Tick, hist::Ev::Tick, hist::Ev::Register { who: (0..run.n_signers()).collect() }];
+    let boot = vec![hist::Ev::Tick, hist::Ev::Register { who: (0..run.n_signers()).collect(), label_offset: 0 }, hist::Ev::EpochUp(1), hist::Ev::Tick, hist::Ev::Tick, hist::Ev::Register { who: (0..run.n_signers()).collect(), label_offset: 0 }];
     for ev in boot {
         run.apply(&ev, mon).await?;
         hist::check_step(&mut run, mon, hid).await?;
@@ -177,7 +177,7 @@ async fn one_history(mon: &mut Monitor, rng: &mut rand_chacha::ChaCha20Rng, dir:
             // after an epoch change an operator-less network still ticks and signers re-register
             hist::Ev::EpochUp(_) if rnd::chance(rng, 85, 100) => {
                 let who: Vec<usize> = if rnd::chance(rng, 7, 10) { (0..run.n_signers()).collect() } else { (0..run.n_signers()).filter(|_| rnd::chance(rng, 2, 3)).collect() };
-                vec![hist::Ev::Tick, hist::Ev::Tick, hist::Ev::Register { who }]
+                vec![hist::Ev::Tick, hist::Ev::Tick, hist::Ev::Register { who, label_offset: 0 }]
             }
             hist::Ev::Sign { .. } if rnd::chance(rng, 7, 10) => vec![hist::Ev::Tick],
             hist::Ev::Restart => vec![],
@@ -265,7 +265,7 @@ async fn c16_child(args: &vcore::Args) {
 async fn c16_history(mon: &mut Monitor, rng: &mut rand_chacha::ChaCha20Rng, dir: PathBuf, hid: &str) -> anyhow::Result<()> {
     let mut run = hist::Run::start(dir, rng).await?;
     let all: Vec<usize> = (0..run.n_signers()).collect();
-    let boot = vec![hist::Ev::Tick, hist::Ev::Register { who: all.clone() }, hist::Ev::EpochUp(1), hist::Ev::Tick, hist::Ev::Tick, hist::Ev::Register { who: all.clone() }];
+    let boot = vec![hist::Ev::Tick, hist::Ev::Register { who: all.clone(), label_offset: 0 }, hist::Ev::EpochUp(1), hist::Ev::Tick, hist::Ev::Tick, hist::Ev::Register { who: all.clone(), label_offset: 0 }];
     for ev in boot {
         run.apply(&ev, mon).await?;
         hist::check_step(&mut run, mon, hid).await?;
@@ -288,7 +288,7 @@ async fn c16_history(mon: &mut Monitor, rng: &mut rand_chacha::ChaCha20Rng, dir:
                 run.apply(&hist::Ev::EpochUp(1), mon).await?;
                 run.apply(&hist::Ev::Tick, mon).await?;
                 run.apply(&hist::Ev::Tick, mon).await?;
-                run.apply(&hist::Ev::Register { who: all.clone() }, mon).await?;
+                run.apply(&hist::Ev::Register { who: all.clone(), label_offset: 0 }, mon).await?;
                 SignedEntityTypeDiscriminants::MithrilStakeDistribution
             }
             _ => {
